@@ -26,7 +26,7 @@ def rand_class(rng, recursive=None, nfields=None, allow=("alias", "default", "re
     return name, base, lines, opts
 
 
-def node_class(kind, max_depth, base="Schema", extra_opts=None):
+def node_class(kind, max_depth, base="Schema", extra_opts=None, optional_v=False):
     """a self-referencing class: v: int; link field of the given kind"""
     name = dyn.fresh("Node")
     ann = {"list": "List['%s'] = Field(default_factory=list)" % name,
@@ -42,23 +42,25 @@ def node_class(kind, max_depth, base="Schema", extra_opts=None):
     okw = dict(extra_opts or {})
     if max_depth is not None:
         okw["max_depth"] = max_depth
-    src = "class %s(%s):\n    __options__ = Options(%s)\n    v: int\n    link: %s\n" % (
-        name, base, ", ".join("%s=%r" % kv for kv in okw.items()), ann)
+    src = "class %s(%s):\n    __options__ = Options(%s)\n    v: int%s\n    link: %s\n" % (
+        name, base, ", ".join("%s=%r" % kv for kv in okw.items()), " = 0" if optional_v else "", ann)
     dyn.declare(src)
     return dyn.get(name), src
 
 
-def tree_input(rng, kind, depth, bad_leaf=False, width=2):
+def tree_input(rng, kind, depth, bad_leaf=False, width=2, empty_leaf=False):
     """an input mapping of the given nesting depth (1 = a single node)"""
     node = {"v": rng.randint(0, 9)}
     if depth <= 1:
+        if empty_leaf and not bad_leaf and rng.random() < 0.5:
+            return {}              # every field of the class has a default: an empty mapping is a node too
         if bad_leaf:
             node["v"] = "x"
         elif kind == "union" and rng.random() < 0.6:
             node["link"] = rng.choice([5, "5", None, "7", 2.0])      # a scalar arm of the union, some needing conversion
         return node
     def child(d):
-        return tree_input(rng, kind, d, bad_leaf, width)
+        return tree_input(rng, kind, d, bad_leaf, width, empty_leaf)
     if kind in ("list", "listopt"):
         n = rng.randint(1, width)
         deep = rng.randrange(n)      # the deepest child sits at a random index (0 included)
@@ -79,17 +81,19 @@ def tree_input(rng, kind, depth, bad_leaf=False, width=2):
     return node
 
 
-def nesting(v):
-    """data-class nesting depth of a tree_input"""
-    if not isinstance(v, dict) or "v" not in v:
+def nesting(v, kind=None):
+    """data-class nesting depth of a tree_input (kind: the link kind; in the dict kinds the link is a mapping of nodes,
+    everywhere else a mapping in link position is a node, an empty one included)"""
+    if not isinstance(v, dict):
         return 0
     link = v.get("link")
     if link is None:
         return 1
-    if isinstance(link, dict) and "v" in link:
-        return 1 + nesting(link)
+    dict_kind = kind is not None and kind.startswith("dict")
+    if isinstance(link, dict) and not dict_kind and ("v" in link or kind is not None):
+        return 1 + nesting(link, kind)
     if isinstance(link, dict):
-        return 1 + max([nesting(x) for x in link.values()] + [0])
+        return 1 + max([nesting(x, kind) for x in link.values()] + [0])
     if isinstance(link, (list, tuple)):
-        return 1 + max([nesting(x) for x in link] + [0])
+        return 1 + max([nesting(x, kind) for x in link] + [0])
     return 1
